@@ -282,6 +282,9 @@ def gen_driver(facts, cfg, include_source=True):
             # out events of the multi-client port are C04's business (selection dependent)
         else:
             w(f'    {fname}(sh_, comp_, pump_, "", "{pc.tag(ev)}");')
+    if mcport:
+        w(f'    {{ const Shell& csh_ = sh_; auto ids_ = csh_.Get{mcport.p.cap}ClientIdentifiers(); std::string j_; for (auto& x_ : ids_) j_ += x_ + ",";')
+        w(f'      verif::emit("C04", "client-identifiers", "{mcport.p.name}", ids_.size() == {ncl} && ids_[0] == "A" && (ids_.size() < 2 || ids_[1] == "B"), j_); }}')
     w('    verif::emit("C01", "no-residue", "pump", pump_.q.empty(), "queue=" + std::to_string(pump_.q.size()));')
     w('  }')
     # C09
